@@ -1,22 +1,34 @@
 #!/bin/bash
 # Runs every kept seeded defect against every check (quick tier) and writes seeded/MATRIX.tsv
-# usage: tools/seeded_matrix.sh [out.tsv] [checks...]
+# usage: tools/seeded_matrix.sh [out.tsv] [checks...]      (env PAR = mutants in parallel, default 4)
+# One scratch worktree of /repo's HEAD per mutant (outside /repo and /verif, removed afterwards);
+# /repo itself is never modified. Evidence/replay of these runs go to scratch directories.
 cd "$(dirname "$0")/.." || exit 2
 OUT=${1:-seeded/MATRIX.tsv}; shift
-CHECKS=${*:-C01 C02 C03 C04 C05 C06 C07 C08 C09 C10 C11 C12 C13 C14 C15 C16 C17 C18 C19}
-: > "$OUT"
-for d in seeded/C*-[ab]; do
-  id=$(basename "$d")
-  [ -f "$d/patch.diff" ] || continue
-  python3 - "$d/meta.json" <<'PY' || continue
+export CHECKS=${*:-C01 C02 C03 C04 C05 C06 C07 C08 C09 C10 C11 C12 C13 C14 C15 C16 C17 C18 C19}
+PAR=${PAR:-4}
+export VERIF_WORKERS=${VERIF_WORKERS:-4}
+one() {
+  d=$1; id=$(basename "$d")
+  python3 - "$d/meta.json" <<'PY' || exit 0
 import json,sys
 m=json.load(open(sys.argv[1]))
 ok=m.get("applies") and m.get("compiles") and m.get("existing_suite_passes_with_change") and m.get("demo_fails_with_change") and m.get("demo_passes_without_change")
 sys.exit(0 if ok else 1)
 PY
+  SW=/tmp/seedmx.$id.$$; SC=/verif/.work/mx.$id.$$
+  git -C /repo worktree add --detach "$SW" HEAD >/dev/null 2>&1 || { echo "$id: cannot create worktree" >&2; exit 0; }
+  trap 'git -C /repo worktree remove --force "$SW" >/dev/null 2>&1; rm -rf "$SC" /verif/.work/bin/kvcheck*seedmx.$id.$$ /verif/.work/mod/*seedmx.$id.$$* /verif/.work/*.mx$id.$$*' EXIT
+  ( cd "$SW" && { git apply "$PWD/../../verif/$d/patch.diff" 2>/dev/null || git apply "/verif/$d/patch.diff" 2>/dev/null || { git apply -3 "/verif/$d/patch.diff" >/dev/null 2>&1 && git reset -q; }; } ) || { printf '%s\t*\tnoapply\n' "$id"; exit 0; }
+  mkdir -p "$SC"
   for c in $CHECKS; do
-    rc=$(./seedtest.sh "$d/patch.diff" "$c" quick | sed -n 's/^SEEDTEST.*exit=\([0-9]*\)$/\1/p')
-    printf '%s\t%s\t%s\n' "$id" "$c" "${rc:-?}" >> "$OUT"
+    VERIF_REPO="$SW" VERIF_WORK_SUFFIX=".mx$id.$$" VERIF_EVIDENCE_DIR="$SC" VERIF_REPLAY_DIR="$SC" ./run.sh "$c" quick > "$SC/out" 2>&1
+    rc=$?
+    orc=$(grep -A1 '^VIOLATION' "$SC/out" | sed -n 's/^ *oracle=\([^ ]*\).*/\1/p' | sort -u | head -3 | tr '\n' ',')
+    printf '%s\t%s\t%s\t%s\n' "$id" "$c" "$rc" "$orc"
   done
-done
-echo "matrix written to $OUT"
+}
+export -f one
+ls -d seeded/C*-[a-z] | xargs -P "$PAR" -I{} bash -c 'one {}' > "$OUT.tmp"
+sort "$OUT.tmp" > "$OUT"; rm -f "$OUT.tmp"
+echo "matrix written to $OUT: $(wc -l < "$OUT") rows"
